@@ -51,6 +51,7 @@ type Loaded struct {
 	ovFiles  map[string]string // virtual path -> real path (for go test -overlay)
 	loadTime time.Duration
 	errs     []string
+	dropped  []string
 }
 
 func goEnv() []string {
@@ -104,18 +105,43 @@ func loadAll(keys []string) (*Loaded, error) {
 		ld.overlay[v] = []byte(rtSrc)
 		ld.ovFiles[v] = rtReal
 	}
-	cfg := &packages.Config{Mode: packages.LoadAllSyntax, Dir: repoRoot, Env: goEnv(), Overlay: ld.overlay}
-	pkgs, err := packages.Load(cfg, patterns...)
-	if err != nil {
-		return nil, err
-	}
-	for _, p := range pkgs {
-		for _, e := range p.Errors {
-			ld.errs = append(ld.errs, e.Error())
+	var pkgs []*packages.Package
+	for attempt := 0; ; attempt++ {
+		cfg := &packages.Config{Mode: packages.LoadAllSyntax, Dir: repoRoot, Env: goEnv(), Overlay: ld.overlay}
+		var err error
+		pkgs, err = packages.Load(cfg, patterns...)
+		if err != nil {
+			return nil, err
 		}
-	}
-	if len(ld.errs) > 0 {
-		return ld, fmt.Errorf("package errors: %s", strings.Join(ld.errs, "; "))
+		ld.errs = nil
+		for _, p := range pkgs {
+			for _, e := range p.Errors {
+				ld.errs = append(ld.errs, e.Error())
+			}
+		}
+		if len(ld.errs) == 0 {
+			break
+		}
+		// a harness file that no longer binds to the tree is dropped (its harnesses become
+		// inconclusive) so that the other files of the package can still be checked
+		dropped := false
+		for v := range ld.overlay {
+			if strings.HasSuffix(v, "zz_verif_rt.go") || strings.HasSuffix(v, "zz_verif_vh_lib.go") {
+				continue
+			}
+			for _, e := range ld.errs {
+				if strings.Contains(e, v+":") {
+					ld.dropped = append(ld.dropped, filepath.Base(ld.ovFiles[v])+": "+e)
+					delete(ld.overlay, v)
+					delete(ld.ovFiles, v)
+					dropped = true
+					break
+				}
+			}
+		}
+		if !dropped || attempt > 6 {
+			return ld, fmt.Errorf("package errors: %s", strings.Join(ld.errs, "; "))
+		}
 	}
 	prog, spkgs := ssautil.AllPackages(pkgs, ssa.InstantiateGenerics)
 	prog.Build()
